@@ -46,6 +46,15 @@ def gen_plan(rng, index, tier):
     offs = [tw.shape_offsets(rng, n_nodes, size) for _ in range(K)]
     drift = (rng.uniform(-0.5, 0.5), rng.uniform(-0.5, 0.5)) if rng.random() < 0.5 else (0.0, 0.0)
     wob = rng.choice([0.0, 0.2, 0.5])
+    # flat bodies (every node on one horizontal / vertical line: a zero-height or zero-width box). Box overlap is defined
+    # with the inclusive-pixel "+1", so such an animal still overlaps itself as long as it moves less than a pixel across its
+    # line: IoU configurations only, no drift, wobble <= 0.2 (OKS is undefined for a zero-area body and is left out)
+    flat = cfg["scoring_method"] == "iou" and rng.random() < 0.25
+    if flat:
+        drift, wob = (0.0, 0.0), rng.choice([0.0, 0.2])
+        for a in range(K):
+            if rng.random() < 0.6:
+                offs[a] = tw.shape_offsets(rng, n_nodes, size, degenerate=rng.choice(["vertical", "horizontal"]))
     # fast common motion (a panning camera): every animal moves 12-24 px (> one body length) per frame while staying D apart.
     # With OKS its similarity to its own last pose is tiny (exp(-d^2/1.28), ~1e-50..1e-200) but strictly positive in double
     # precision while every other animal scores exactly 0, so the match is still unique; distances work at any speed. Boxes stop
@@ -71,6 +80,8 @@ def gen_plan(rng, index, tier):
             present[t][a] = t >= arrive[a]
     max_gap = 0 if fast else max(W - 2, 0)
     fired = {}
+    if flat:
+        fired["flat_body"] = 1
     if fast:
         fired["fast_common_motion"] = 1
     lead = rng.randint(1, 3) if (rng.random() < 0.15 and F > 5) else 0
@@ -82,15 +93,27 @@ def gen_plan(rng, index, tier):
             for a in range(K):
                 present[t][a] = t >= arrive[a]
         fired["empty_leading_frames"] = lead
+    # shy newcomers: a late arrival whose first detections score at or below the new-track threshold (it gets no identity yet);
+    # conf[a] is its first confident frame. Nobody is absent from its first sighting until it has become confident.
+    thr = cfg["instance_score_threshold"]
+    conf = list(arrive)
+    shy = {}
+    if thr > 0 and not fast:
+        for a in range(1, K):
+            if arrive[a] > 0 and F - arrive[a] >= 3 and rng.random() < 0.4:
+                m = rng.randint(1, min(10, F - arrive[a] - 2))
+                conf[a] = arrive[a] + m
+                shy[a] = (arrive[a], conf[a])
+                fired["shy_newcomer"] = fired.get("shy_newcomer", 0) + 1
     if max_gap > 0:
         for a in range(K):
-            t = arrive[a] + 1
+            t = conf[a] + 1
             while t < F:
                 if rng.random() < 0.2:
                     g = rng.randint(1, max_gap)
                     if t + g < F:  # must come back to be observed
-                        # not during somebody's arrival frame
-                        if not any(arrive[b] in range(t, t + g) and b != a for b in range(K)):
+                        # not during somebody's arrival (from first sighting to first confident frame)
+                        if not any(set(range(arrive[b], conf[b] + 1)) & set(range(t, t + g)) and b != a for b in range(K)):
                             for u in range(t, t + g):
                                 present[u][a] = False
                             fired["reappear_within_window"] = fired.get("reappear_within_window", 0) + 1
@@ -99,7 +122,7 @@ def gen_plan(rng, index, tier):
                 t += 1
     # permanent departures: an animal leaves for good (after the last arrival, so no newcomer ever appears while it is
     # missing); the animals that stay are never absent and must keep their identities however stale the leaver's track gets
-    last_arrival = max(arrive)
+    last_arrival = max(conf)
     if K > 1 and F - last_arrival > 3:
         for a in range(K):
             if rng.random() < 0.2 and sum(1 for b in range(K) if present[F - 1][b]) > 1:
@@ -111,11 +134,15 @@ def gen_plan(rng, index, tier):
         fired["late_arrival"] = sum(1 for a in range(K) if arrive[a] > 0)
     # wander: every animal walks its own way, a few pixels per frame but arbitrarily far over the clip (further than the
     # distance to its neighbours), never coming within D_min of where any OTHER animal is or has been (local queues never forget)
-    wander = (not fast) and rng.random() < 0.3
+    wander = (not fast) and (not flat) and rng.random() < 0.3
     path = None
     if wander:
         fired["wander"] = 1
         step = rng.uniform(1.5, 3.0)
+        if cfg["scoring_method"] == "iou":
+            # box overlap is the only evidence IoU has: what an animal walks during its longest absence must leave its box
+            # overlapping its own last box (otherwise every score is exactly 0 and any assignment is as good as another)
+            step = rng.uniform(0.3, 1.0) * size / ((max_gap + 1) * 1.42)
         d_min = 60.0
         pos = [list(h) for h in homes]
         vel = [[rng.uniform(-step, step), rng.uniform(-step, step)] for _ in range(K)]
@@ -153,7 +180,10 @@ def gen_plan(rng, index, tier):
                     if rng.random() < 0.5:
                         pts[j] = [float("nan"), float("nan")]
                         fired["missing_keypoints"] = fired.get("missing_keypoints", 0) + 1
-            fr.append({"animal": a, "pts": pts, "score": round(rng.uniform(0.75, 1.0), 3)})
+            sc = round(rng.uniform(0.75, 1.0), 3)
+            if a in shy and shy[a][0] <= t < shy[a][1]:
+                sc = round(thr * rng.choice([0.3, 0.6, 1.0]), 3)  # at or below the threshold: no track is promised
+            fr.append({"animal": a, "pts": pts, "score": sc})
         if len(fr) > 1:
             rng.shuffle(fr)
             fired["permute_detections"] = fired.get("permute_detections", 0) + 1
@@ -170,12 +200,15 @@ def describe(plan):
 def in_class(plan):
     """Re-check the scenario class on a (possibly shrunk) plan."""
     W = plan["cfg"]["window_size"]
+    thr = plan["cfg"]["instance_score_threshold"]
     seen = set()
     last = {}
     for t, fr in enumerate(plan["frames"]):
         here = {d["animal"] for d in fr}
         if len(here) != len(fr):
             return False
+        if any(d["score"] <= thr for d in fr) and not seen <= here:
+            return False  # somebody is missing while an animal without an identity is in view
         new = here - seen
         if new and seen and not seen <= here:
             return False  # newcomer while somebody seen before is missing
@@ -232,8 +265,11 @@ def execute(plan, choices=None):
     c09_crash = any(v["kind"] == "crash" for v in res["violations"])
     if not c09_crash and in_class(plan):
         a2t, t2a = {}, {}
+        thr = plan["cfg"]["instance_score_threshold"]
         for t, row in enumerate(obs):
-            for animal, tname in row:
+            for (animal, tname), det in zip(row, plan["frames"][t]):
+                if tname in (None, "<dropped>") and det["score"] <= thr:
+                    continue  # at or below the new-track threshold and unmatched: no identity is promised (nor claimed) yet
                 if tname in (None, "<dropped>"):
                     # every detection of the class scores above the threshold: a detected animal without a track has no identity to keep
                     violations.append({
@@ -282,6 +318,8 @@ def execute(plan, choices=None):
             "fast_common_motion": int("fast_common_motion" in plan.get("faults_fired", {})),
             "wander_far_over_time": int("wander" in plan.get("faults_fired", {})),
             "empty_leading_frames": int("empty_leading_frames" in plan.get("faults_fired", {})),
+            "shy_newcomer_below_threshold": int("shy_newcomer" in plan.get("faults_fired", {})),
+            "flat_body_zero_area_box": int("flat_body" in plan.get("faults_fired", {})),
         },
         "faults": plan.get("faults_fired", {}),
         "sim_us": len(frames) * 33333,
